@@ -603,15 +603,15 @@ def stream_files(ctx, F, n_files, n_sweep, families, use_gpg):
                 st["property_oracle_checks"] += 1
                 # property oracle: matching keys verify, all others fail, the reloaded signed bytes are the signed bytes
                 if "load_err" in obs:
-                    oracle_viol.append(("honest file does not load (%s): %s" % (vname, obs["load_err"]), text))
+                    oracle_viol.append(("honest file does not load (%s): %s" % (vname, obs["load_err"]), text, keys, {"expect": expect, "signed_bytes": latin(signed_bytes), "asdict": orig_asdict}))
                 else:
                     got = ["ok" if v == "ok" else "fail" for v in obs["verify"]]
                     if got != expect:
-                        oracle_viol.append(("%s, %s, %s: verification verdicts %r, expected %r" % (vname, fam, "dsse" if dsse else "mb", obs["verify"], expect), text))
+                        oracle_viol.append(("%s, %s, %s: verification verdicts %r, expected %r" % (vname, fam, "dsse" if dsse else "mb", obs["verify"], expect), text, keys, {"expect": expect, "signed_bytes": latin(signed_bytes), "asdict": orig_asdict}))
                     if obs.get("msg") != latin(signed_bytes):
-                        oracle_viol.append(("%s: bytes re-derived after loading differ from the bytes that were signed" % vname, text))
+                        oracle_viol.append(("%s: bytes re-derived after loading differ from the bytes that were signed" % vname, text, keys, {"expect": expect, "signed_bytes": latin(signed_bytes), "asdict": orig_asdict}))
                     if strict(obs.get("asdict")) != strict(orig_asdict):
-                        oracle_viol.append(("%s: re-parsed payload differs from the signed object" % vname, text))
+                        oracle_viol.append(("%s: re-parsed payload differs from the signed object" % vname, text, keys, {"expect": expect, "signed_bytes": latin(signed_bytes), "asdict": orig_asdict}))
                 F.add("honest:" + vname, json.loads(text), keys, env, obs)
             st["files"] += 1
             st["by_family"][fam] = st["by_family"].get(fam, 0) + 1
@@ -723,10 +723,10 @@ def stream_files(ctx, F, n_files, n_sweep, families, use_gpg):
                 # property oracle
                 if accepted:
                     if dsse and content_changed:
-                        oracle_viol.append(("%s: DSSE file with changed payload/type still verifies" % kind, text))
+                        oracle_viol.append(("%s: DSSE file with changed payload/type still verifies" % kind, text, skeys, {"must_fail": list(range(len(skeys)))}))
                     if not dsse and sig_i is None:
                         if strict(obs.get("asdict")) != strict(orig_asdict):
-                            oracle_viol.append(("%s: file whose re-parsed content differs from the signed content still verifies" % kind, text))
+                            oracle_viol.append(("%s: file whose re-parsed content differs from the signed content still verifies" % kind, text, skeys, {"must_fail": list(range(len(skeys)))}))
                         else:
                             st["edits_accepted_normalised"] += 1
                             nk = st.setdefault("normalised_by_kind", {})
@@ -737,7 +737,7 @@ def stream_files(ctx, F, n_files, n_sweep, families, use_gpg):
                     if sig_i is not None and sig_i in accepted and sig_i < len(signers) and not dup_signers:
                         # the signature entry of signer sig_i was changed/removed: only acceptable if another valid
                         # entry by the same key exists (never generated here)
-                        oracle_viol.append(("%s: verification with key #%d succeeds although its signature entry was changed" % (kind, sig_i), text))
+                        oracle_viol.append(("%s: verification with key #%d succeeds although its signature entry was changed" % (kind, sig_i), text, skeys, {"must_fail": [sig_i]}))
                 F.add("edit:" + kind, e, skeys, env, obs)
             if gk and fam == "gpg" and not dsse:
                 # other_headers is part of what gpg hashes; the model's oracle does not see it: implementation-only check
@@ -750,7 +750,7 @@ def stream_files(ctx, F, n_files, n_sweep, families, use_gpg):
                     obs = impl_file(F.write(json.dumps(e).encode()), skeys[:1])
                     st["edit_kinds"]["gpg-other-headers(impl only)"] = st["edit_kinds"].get("gpg-other-headers(impl only)", 0) + 1
                     if obs.get("verify") == ["ok"]:
-                        oracle_viol.append(("gpg other_headers edited, signature still verifies", json.dumps(e).encode()))
+                        oracle_viol.append(("gpg other_headers edited, signature still verifies", json.dumps(e).encode(), skeys[:1], {"must_fail": [0]}))
     finally:
         env.close()
     return st, oracle_viol
@@ -1050,7 +1050,7 @@ def run(ctx):
                       {"kind": kind, "value_json": json.dumps(v, ensure_ascii=True)})
         violations += 1
     for what, d in order_viol[:2]:
-        ctx.violation("property oracle: " + what, {"kind": "signable_bytes", "value_json": json.dumps(d, ensure_ascii=True)})
+        ctx.violation("property oracle: " + what, {"kind": "order", "value_json": json.dumps(d, ensure_ascii=True)})
         violations += 1
     canon_stats = {
         "values": len(vals), "objects": len(ovals), "pae": len(preqs),
@@ -1065,16 +1065,20 @@ def run(ctx):
     fans = model.batch([("c09_verify", c["req"]) for c in F.cases])
     kn2, kok2, kdetail2 = core.kernel_sample(ctx, model, limit_chars=60000, max_cases=6)
     ctx.oblige("kernel-vs-extraction-sample(files)", kok2, kdetail2)
-    file_mism, unmodelled = [], 0
+    file_mism, unmodelled, unmod_tags, unmod_samples = [], 0, {}, []
     for c, a in zip(F.cases, fans):
         c["model"] = model_file_obs(a)
         d = compare_file(c["impl"], c["model"])
         if d == "unmodelled":
             unmodelled += 1
+            unmod_tags[c["tag"]] = unmod_tags.get(c["tag"], 0) + 1
+            if len(unmod_samples) < 3:
+                unmod_samples.append({"tag": c["tag"], "impl": {k: v for k, v in c["impl"].items() if k not in ("msg", "asdict")},
+                                      "model": {k: v for k, v in c["model"].items() if k not in ("msg", "asdict", "signatures")}})
         elif d:
             file_mism.append((c, d))
-    for text_what, text in oracle_viol[:3]:
-        ctx.violation("property oracle: " + text_what, {"kind": "file_text", "text": latin(text)})
+    for text_what, text, okeys, oextra in oracle_viol[:3]:
+        ctx.violation("property oracle: " + text_what, {"kind": "file_text", "text": latin(text), "keys": okeys, "oracle": oextra})
         violations += 1
     for c, d in file_mism[:3]:
         ctx.violation("file %s: %s" % (c["tag"], d), {"kind": "file", "tag": c["tag"], "req": c["req"], "impl": c["impl"], "model": c["model"]})
@@ -1150,7 +1154,7 @@ def run(ctx):
         "samples": [{"canon_value": vals[0]}, {"file_case": {"tag": F.cases[0]["tag"], "file": F.cases[0]["req"]["file"]}} if F.cases else {},
                     {"cli_events": specs[0]["events"]} if specs else {}],
         "programs": 1, "mismatches": len(mism_a) + len(file_mism) + len(cli_mism), "property_oracle_violations": len(oracle_viol) + len(order_viol),
-        "canon": canon_stats, "files": fst, "file_requests": len(F.cases), "file_unmodelled_skipped": unmodelled,
+        "canon": canon_stats, "files": fst, "file_requests": len(F.cases), "file_unmodelled_skipped": unmodelled, "file_unmodelled_tags": unmod_tags, "file_unmodelled_samples": unmod_samples,
         "file_tags": _count(c["tag"].split(":")[0] for c in F.cases),
         "impl_verdicts": _count(v for c in F.cases for v in c["impl"].get("verify", ["load_err"])),
         "tie": {"regenerated": "Gen/C09Consts.v (attr.ib field lists, _type tags, constructor defaults, ENVELOPE_PAYLOAD_TYPE) by harness/c09tie.py",
@@ -1193,13 +1197,34 @@ def replay(ctx, obj):
         else:
             from securesystemslib.formats import encode_canonical
             try:
-                impl = {"ok": latin(encode_canonical(v).encode("utf-8"))}
+                if kind == "signable_bytes":
+                    from in_toto.models.layout import Layout
+                    from in_toto.models.link import Link
+                    import copy as _copy
+                    o = (Link if v.get("_type") == "link" else Layout).read(_copy.deepcopy(v))
+                    impl = {"ok": latin(o.signable_bytes)}
+                else:
+                    impl = {"ok": latin(encode_canonical(v).encode("utf-8"))}
             except Exception as e:  # noqa
                 impl = {"err": exc_class(e)}
             a = model.batch([("canon", v)])[0]
         print("impl :", _short(impl))
         print("model:", _short(a))
         bad = impl != a
+    elif kind == "order":
+        import copy as _copy
+        from in_toto.models.layout import Layout
+        from in_toto.models.link import Link
+        from in_toto.models.metadata import Envelope
+        v = json.loads(r["value_json"])
+        cls = Link if v.get("_type") == "link" else Layout
+        o = cls.read(_copy.deepcopy(v))
+        for i in range(20):
+            twin = cls.read(shuffle_deep(ctx.rng, _copy.deepcopy(v)))
+            if twin.signable_bytes != o.signable_bytes or Envelope.from_signable(twin).pae() != Envelope.from_signable(o).pae():
+                print("same content, entries supplied in another order: different signed bytes (shuffle #%d)" % i)
+                bad = True
+                break
     elif kind == "file":
         F = Files(ctx)
         p = F.write(json.dumps(r["req"]["file"]).encode("utf-8"))
@@ -1213,14 +1238,16 @@ def replay(ctx, obj):
     elif kind == "file_text":
         F = Files(ctx)
         p = F.write(r["text"].encode("latin-1"))
-        from in_toto.models.metadata import Metadata
-        try:
-            md = Metadata.load(p)
-            print("loads; signatures by", [s.get("keyid") if isinstance(s, dict) else s.keyid for s in md.signatures])
-        except Exception as e:  # noqa
-            print("load:", type(e).__name__, e)
+        obs = impl_file(p, r.get("keys", []))
+        o = r.get("oracle", {})
         print(obj.get("what"))
-        bad = True
+        print("impl :", _short({k: v for k, v in obs.items() if k not in ("msg", "asdict")}))
+        got = ["ok" if v == "ok" else "fail" for v in obs.get("verify", [])]
+        if "must_fail" in o:
+            bad = any(i < len(got) and got[i] == "ok" for i in o["must_fail"])
+        else:
+            bad = ("load_err" in obs or got != o.get("expect") or obs.get("msg") != o.get("signed_bytes")
+                   or strict(obs.get("asdict")) != strict(o.get("asdict")))
     elif kind == "cli":
         ck = CliKeys(ctx, None)
         fam_of_keyid = {k["pub"]["keyid"]: k["fam"] for k in ck.keys.values() if "pub" in k}
